@@ -139,7 +139,13 @@ func (os *ObjectStream) parseHeader() error {
 	headerData := os.decoded[:os.first]
 	parser := NewParser(bytes.NewReader(headerData))
 
-	os.offsets = make([]objectStreamOffset, 0, os.n)
+	// /N comes from the file: every pair takes at least four bytes of the
+	// header, so do not reserve more entries than the header can hold.
+	capacity := os.n
+	if most := len(headerData)/4 + 1; capacity > most {
+		capacity = most
+	}
+	os.offsets = make([]objectStreamOffset, 0, capacity)
 
 	for i := 0; i < os.n; i++ {
 		// Parse object number
@@ -160,6 +166,9 @@ func (os *ObjectStream) parseHeader() error {
 		offset, ok := offsetObj.(Int)
 		if !ok {
 			return fmt.Errorf("offset %d is not an integer: %T", i, offsetObj)
+		}
+		if offset < 0 || int64(offset) > int64(len(os.decoded)) {
+			return fmt.Errorf("offset %d (%d) is outside the object stream", i, offset)
 		}
 
 		os.offsets = append(os.offsets, objectStreamOffset{
@@ -204,7 +213,8 @@ func (os *ObjectStream) GetObjectByIndex(index int) (Object, int, error) {
 	if offset >= len(os.decoded) {
 		return nil, 0, fmt.Errorf("object offset %d exceeds decoded data length %d", offset, len(os.decoded))
 	}
-	if endOffset > len(os.decoded) {
+	if endOffset > len(os.decoded) || endOffset < offset {
+		// offsets are not required to be in ascending order
 		endOffset = len(os.decoded)
 	}
 
